@@ -222,6 +222,8 @@ def build_group(g, workdir):
         f.write(X.extract_template_macro())
     with open(os.path.join(workdir, 'cxx_constants.inc'), 'w') as f:
         f.write(X.extract_cxx_constants())
+    with open(os.path.join(workdir, 'uid_constants.inc'), 'w') as f:
+        f.write(X.extract_uid_constants())
     return man
 
 
